@@ -22,6 +22,7 @@ func checkC19(p *Prog, c *Check) {
 	c19Start(p, c)
 	c19Det(p, c)
 	c19AdvanceOnlyReleased(p, c)
+	keysBelongToTrigger(p, c, "C03-R10")
 }
 
 func c19Identities(p *Prog, c *Check) {
